@@ -36,10 +36,7 @@ import (
 	"verifharness/sim"
 )
 
-func TestMain(m *testing.M) { sim.Main(m, gen, run) }
-func TestSim(t *testing.T)  { sim.RunTest(t) }
-
-func gen(a hx.Args) {
+func genProd(a hx.Args) {
 	r := hx.NewRng(a.Seed)
 	n := a.N(300, 3000)
 	for i := 0; i < n; i++ {
@@ -65,7 +62,7 @@ func gen(a hx.Args) {
 	}
 }
 
-func errTok(err error) string {
+func prodErrTok(err error) string {
 	if err == nil {
 		return "0"
 	}
@@ -95,7 +92,7 @@ func errTok(err error) string {
 	return fmt.Sprintf("%s/%x", class, h.Sum32()&0xffff)
 }
 
-type hooks struct {
+type prodHooks struct {
 	log *sim.Log
 }
 
@@ -105,12 +102,14 @@ func rid(r *kgo.Record) string {
 	}
 	return string(r.Key)
 }
-func (h *hooks) OnProduceRecordBuffered(r *kgo.Record)              { h.log.Add("B:%s", rid(r)) }
-func (h *hooks) OnProduceRecordUnbuffered(r *kgo.Record, err error) { h.log.Add("U:%s:%s", rid(r), errTok(err)) }
+func (h *prodHooks) OnProduceRecordBuffered(r *kgo.Record) { h.log.Add("B:%s", rid(r)) }
+func (h *prodHooks) OnProduceRecordUnbuffered(r *kgo.Record, err error) {
+	h.log.Add("U:%s:%s", rid(r), prodErrTok(err))
+}
 
 var portBase atomic.Int64
 
-func run(t *testing.T, tk []string) string {
+func runProd(t *testing.T, tk []string) string {
 	if tk[0] != "prod" || len(tk) != 11 {
 		return "bad-op"
 	}
@@ -201,7 +200,7 @@ func run(t *testing.T, tk []string) string {
 	opts := []kgo.Opt{
 		kgo.SeedBrokers(cluster.ListenAddrs()...), kgo.Dialer(net.Stack.DialContext),
 		kgo.MaxBufferedRecords(maxrec), kgo.ProducerLinger(time.Duration(linger) * time.Millisecond),
-		kgo.RecordDeliveryTimeout(3 * time.Second), kgo.RequestRetries(4), kgo.WithHooks(&hooks{log}),
+		kgo.RecordDeliveryTimeout(3 * time.Second), kgo.RequestRetries(4), kgo.WithHooks(&prodHooks{log}),
 		kgo.UnknownTopicRetries(1), kgo.RetryBackoffFn(func(int) time.Duration { return 20 * time.Millisecond }),
 	}
 	if maxbytes > 0 {
@@ -247,7 +246,7 @@ func run(t *testing.T, tk []string) string {
 					pctx, pc = context.WithTimeout(ctx, time.Duration(wr.Intn(40))*time.Millisecond)
 				}
 				promise := func(r *kgo.Record, err error) {
-					log.Add("R:%s:%s:%d", rid(r), errTok(err), r.Offset)
+					log.Add("R:%s:%s:%d", rid(r), prodErrTok(err), r.Offset)
 				}
 				sz := len(rec.Key) + len(rec.Value)
 				// calls never begin after Close has begun (producing on a closed client is outside the properties)
@@ -288,14 +287,14 @@ func run(t *testing.T, tk []string) string {
 					fctx, fc := context.WithTimeout(ctx, time.Duration(50+wr.Intn(3000))*time.Millisecond)
 					log.Add("Fs:%d", k)
 					err := cl.Flush(fctx)
-					log.Add("Fe:%d:%s", k, errTok(err))
+					log.Add("Fe:%d:%s", k, prodErrTok(err))
 					fc()
 				case 2:
 					k := flushN.Add(1)
 					fctx, fc := context.WithTimeout(ctx, 4*time.Second)
 					log.Add("As:%d", k)
 					err := cl.AbortBufferedRecords(fctx)
-					log.Add("Ae:%d:%s", k, errTok(err))
+					log.Add("Ae:%d:%s", k, prodErrTok(err))
 					fc()
 				case 3:
 					cl.PurgeTopicsFromProducing("u")
@@ -348,7 +347,7 @@ func run(t *testing.T, tk []string) string {
 		fctx, fc := context.WithTimeout(ctx, 60*time.Second)
 		log.Add("Fs:%d", k)
 		err := cl.Flush(fctx)
-		log.Add("Fe:%d:%s", k, errTok(err))
+		log.Add("Fe:%d:%s", k, prodErrTok(err))
 		fc()
 		hx.St.Inc("scen.flush-end")
 		doClose()
@@ -368,4 +367,3 @@ func b2i(b bool) int {
 	}
 	return 0
 }
-
